@@ -50,7 +50,7 @@ func envMap(p *pipeline.Pipeline) map[string]string {
 func TestPropSignedRoundTrip(t *testing.T) {
 	ctx := context.Background()
 	pool := keys.Pool()
-	ev.Check(t, 700, 6000, func(t *rapid.T) {
+	ev.Check(t, 400, 5000, func(t *rapid.T) {
 		cfg := doc.Config{
 			Anchors: rapid.IntRange(0, 2).Draw(t, "anchors") == 0, Timestamps: true, Floats: true,
 			BigMaps: true, BigMapOneIn: 4, EmptyKey: true, MergeKeyStr: true, EmptyMatrix: true, BothCommands: true,
